@@ -1,8 +1,181 @@
 import GB.Base.Proto
+import GB.C13.Spec
 namespace GB.C13
 open GB GB.Proto
 
-/-- stub: replaced when the C13 slice is built -/
-def handle : Handler := fun _ _ => "BAD c13 unimplemented"
+/-! line-protocol helpers -/
+
+def parseListStr (s : String) : List String := if s = "-" || s = "" then [] else s.splitOn ","
+
+def parseHexList (s : String) : Option (List Bytes) := (parseListStr s).mapM parseHex
+
+def parseEnd (s : String) : Option End :=
+  if s = "ok" then some .ok
+  else if s = "hang" then some .hang
+  else match s.toList with
+    | 'e' :: rest =>
+      match (String.ofList rest).splitOn ":" with
+      | [c, m] => do
+        let c ← c.toNat?
+        let m ← parseHex m
+        some (.err c m)
+      | _ => none
+    | _ => none
+
+def parseFrame (s : String) : Option Frame :=
+  match s.toList with
+  | op :: kind :: ':' :: rest => do
+    let t ← parseHex (String.ofList rest)
+    if (op = 't' || op = 'b') && (kind = 'g' || kind = 'm') then
+      some { binary := op = 'b', malformed := kind = 'm', text := t }
+    else none
+  | _ => none
+
+def jsonM : Marshaler := { mime := jsonMime, binary := false, stream := true }
+def binM : Marshaler := { mime := binMime, binary := true, stream := false }
+/-- the transcoder configuration of the harness: JSON (default) and a binary, non-streaming marshaler -/
+def marshalers : List Marshaler := [jsonM, binM]
+
+def showOptHex : Option Bytes → String
+  | none => "-"
+  | some b => toHex b
+
+/-- `http <cs> <ss> <accept…> <content-type…> <rbp> <lockstep> <msgs…> <end>
+      => <status> <content-type|-> <body> <payloads…> <records…> <flush>` -/
+def handleHTTP (i o : List String) : String :=
+  match i, o with
+  | [_, cs, ss, acc, ct, rbp, _lock, msgs, e], [status, rct, body, payloads, recs, flush] =>
+    match parseHexList acc, parseHexList ct, parseEnd e, status.toNat?, parseHex body, parseHexList payloads with
+    | some acc, some ct, some e, some status, some body, some ps =>
+      let cs := cs = "1"
+      let ss := ss = "1"
+      let req : BindReq := { accept := acc, contentType := ct, cs, ss }
+      let msgsL := parseListStr msgs
+      let recsL := parseListStr recs
+      let exp := httpOutcome marshalers jsonM req (rbp = "w") ps e
+      let bound := bind marshalers jsonM req
+      let sseReq := sseRequested marshalers acc && (match pickRequest marshalers jsonM ct with | .ok _ => true | .error _ => false)
+      let isSSE := match bound with | .ok b => b.isSSE | .error _ => false
+      -- the property's demands on what was observed
+      if sseReq && (cs || !ss) && status = 200 then s!"VIOL sse-not-refused status={status}"
+      else if status = 200 && ss && !cs && isSSE && rct ≠ toHex sseMime && msgsL ≠ [] then
+        s!"VIOL sse-content-type got={rct} want={toHex sseMime}"
+      else if status = 200 && ss && !cs && !(ps.all (fun p => if isSSE then sseSafe p else lineSafe p)) then
+        "VIOL payload-breaks-framing (encoder emitted a raw line break)"
+      else if status = 200 && ss && !cs && recsL ≠ msgsL then
+        s!"VIOL records got={recsL.length} want={msgsL.length} (records read back by the client differ from the messages sent)"
+      else if status = 200 && ss && !cs && flush ≠ "ok" then "VIOL not-flushed-per-message"
+      -- model = implementation
+      else if status ≠ exp.status then s!"DIFF model=status:{exp.status}"
+      else if (match exp.ct with | some c => rct != toHex c | none => rct != "-" && exp.body.isSome) then
+        s!"DIFF model=ct:{showOptHex exp.ct}"
+      else if (match exp.body with | some b => b != body | none => false) then s!"DIFF model=body:{showOptHex exp.body}"
+      else if status = 200 && ss && !cs && (if isSSE then parseSSE body else splitLines body) ≠ ps then
+        "DIFF model=parser (the model's record reader does not return the payloads)"
+      else
+        let nt := if (status = 200 && ss && msgsL ≠ []) || sseReq then " nt" else ""
+        let br :=
+          if status = 200 && ss then (if msgsL = [] then "http-empty-stream" else if isSSE then "http-sse-stream" else "http-json-stream")
+          else if sseReq && status = 400 then "http-sse-refused"
+          else if status = 200 then "http-unary"
+          else s!"http-{status}"
+        s!"OK{nt} b={br}"
+    | _, _, _, _, _, _ => "BAD http fields"
+  | _, _ => "BAD http arity"
+
+def showClose (c : Nat × Bytes) : String := s!"c{c.1}:{toHex c.2}"
+
+/-- close code and reason of an observed `c<code>:<hex>` field -/
+def parseClose (s : String) : Option (Nat × Bytes) :=
+  match s.toList with
+  | 'c' :: rest =>
+    match (String.ofList rest).splitOn ":" with
+    | [c, r] => do
+      let c ← c.toNat?
+      let r ← parseHex r
+      some (c, r)
+    | _ => none
+  | _ => none
+
+/-- `ws <cs> <ss> <body> <codec> <frames…> <resp…> <end> <gap> <close> <readn>
+      => <upgrade> <messages…> <records…> <close> <received…> <ret> <payloads…>` -/
+def handleWS (i o : List String) : String :=
+  match i, o with
+  | [_, cs, ss, body, codec, frames, resp, e, _gap, closeMode, _readn], [up, msgs, recs, close, recv, ret, payloads] =>
+    match (parseListStr frames).mapM parseFrame, parseEnd e, parseHexList payloads with
+    | some fs, some e, some ps =>
+      let cs := cs = "1"
+      let ss := ss = "1"
+      let cfg : Cfg := { cs, body := body = "1", expectBinary := codec = "b" }
+      let respL := parseListStr resp
+      let msgsL := parseListStr msgs
+      let recsL := parseListStr recs
+      let recvL := parseListStr recv
+      let deliv := expectedDelivered cfg fs
+      let bad := firstBad cfg fs
+      let started := cfg.cs || !cfg.body || deliv ≠ []
+      -- without a request body in the binding the payload is not read: one empty request per frame
+      let recvExp : List String :=
+        if cfg.body then deliv.map (fun f => toHex f.text)
+        else if cfg.cs then deliv.map (fun _ => "x") else ["x"]
+      -- how the call ends: `none` = only the client can end it
+      let res : Option FwdResult :=
+        match bad with
+        | some f => some (if typeOK cfg f then .status 3 [] else .wrongType cfg.expectBinary)
+        | none =>
+          if !started then none
+          else match e with
+            | .ok => some (if !ss && ps = [] then .status 14 msgUnaryEOF else .ok)
+            | .err c m => some (.status c m)
+            | .hang => none
+      let nOut : Nat :=
+        if bad.isSome || !started then 0
+        else if ss then ps.length
+        else match e with | .ok => min 1 ps.length | _ => 0
+      let outExp := wsOut cfg.expectBinary (ps.take nOut)
+      let opc := if cfg.expectBinary then "b" else "t"
+      let msgsExp := outExp.map (fun m => s!"{opc}:{toHex m.payload}")
+      let malformedEnd := match bad with | some f => typeOK cfg f | none => false
+      let closeExp : String :=
+        match res with
+        | none => if closeMode = "cli" then "c1000:x" else "none"
+        | some r => showClose (closeFrame r)
+      if up ≠ "101" then s!"DIFF model=upgrade:101"
+      -- the property's demands on what was observed
+      else if !(msgsL.all (fun m => m.startsWith (opc ++ ":"))) then s!"VIOL opcode (a response was not sent as a {opc} message)"
+      else if recsL ≠ respL.take nOut then
+        s!"VIOL out-records got={recsL.length} want={nOut} (messages read by the client differ from the responses sent)"
+      else if recvL ≠ recvExp then
+        s!"VIOL in-records got={recvL.length} want={recvExp.length} (request messages at the target differ from the client frames)"
+      else if (match bad with | some f => !typeOK cfg f | none => false) && !(close.startsWith "c1003:") then
+        s!"VIOL wrong-frame-type-not-1003 got={close}"
+      else if res = some .ok && close ≠ "c1000:x" then s!"VIOL clean-end-not-1000 got={close}"
+      else if (match res with
+          | some (.status c _) =>
+            (match parseClose close with
+             | some (code, reason) => code == 1000 || !isPrefixOfB (reasonPrefix c) reason
+             | none => true)
+          | _ => false) then s!"VIOL error-close-without-grpc-code got={close}"
+      -- model = implementation
+      else if msgsL ≠ msgsExp then s!"DIFF model=messages"
+      else if !malformedEnd && close ≠ closeExp then s!"DIFF model=close:{closeExp}"
+      else if malformedEnd && !(close.startsWith "c1001:") then s!"DIFF model=close:c1001"
+      else if ret ≠ "ok" then s!"DIFF model=ret:ok"
+      else
+        let nt := if fs.length + respL.length ≥ 1 then " nt" else ""
+        let bin := if cfg.cs then "ws-in-all" else if cfg.body then "ws-in-first" else "ws-in-none"
+        let bend := match bad, res with
+          | some f, _ => if typeOK cfg f then "malformed" else "wrongtype"
+          | none, none => "client-close"
+          | none, some .ok => "clean"
+          | none, some _ => "error"
+        s!"OK{nt} b={bin}-{bend}"
+    | _, _, _ => "BAD ws fields"
+  | _, _ => "BAD ws arity"
+
+def handle : Handler
+  | "http" :: i, o => handleHTTP ("http" :: i) o
+  | "ws" :: i, o => handleWS ("ws" :: i) o
+  | _, _ => "BAD c13 line"
 
 end GB.C13
